@@ -755,6 +755,27 @@ def _rec_sequencer():
     return Rec()
 
 
+@battery("seq_blank")
+def b_seq_blank(tier, rnd):
+    from mingus.midi.sequencer import Sequencer
+    return {"rule": "Sequencer.__init__ on three blank instances", "cases": [(Sequencer.__new__(Sequencer),) for _ in range(3)]}
+
+
+@battery("seq_attach")
+def b_seq_attach(tier, rnd):
+    from mingus.midi.sequencer import Sequencer
+    from mingus.midi.sequencer_observer import SequencerObserver
+    cases = []
+    for k in range(0, 5):
+        for j in range(-1, k):
+            s = Sequencer()
+            obs = [SequencerObserver() for _ in range(k)]
+            s.listeners = list(obs)
+            cases.append((s, obs[j] if j >= 0 else SequencerObserver()))
+    return {"rule": "0..4 distinct observers attached already x the argument a new observer or any of those attached",
+            "cases": cases}
+
+
 @battery("seq_cc")
 def b_seq_cc(tier, rnd):
     v = (-2, -1, 0, 1, 64, 127, 128, 129, 1000)
@@ -1039,6 +1060,27 @@ def b_bar_place(tier, rnd):
             for content in (None, NoteContainer(["C", "E"]), "F#", "Bbb"):
                 cases.append((copy.deepcopy(b), content, v))
     return {"rule": "every third intermediate state of the 'bars_filled' battery x 10 values x {rest, container, two bare names}",
+            "cases": cases}
+
+
+@battery("bar_rest")
+def b_bar_rest(tier, rnd):
+    import copy
+    cases = []
+    for (b,) in b_bars_filled(tier, rnd)["cases"][::2]:
+        for v in (1, 2, 4, 8, 16, 3, 6, 1.5, 5, 12, 32, 64):
+            cases.append((copy.deepcopy(b), v))
+    return {"rule": "every second intermediate state of the 'bars_filled' battery x 12 values", "cases": cases}
+
+
+@battery("bar_plus")
+def b_bar_plus(tier, rnd):
+    import copy
+    from mingus.containers.note_container import NoteContainer
+    cases = []
+    for (b,) in b_bars_filled(tier, rnd)["cases"]:
+        cases.append((copy.deepcopy(b), NoteContainer(["C", "E"])))
+    return {"rule": "every intermediate state of the 'bars_filled' battery (all its meters, incl. the free (0,0) one) + a container",
             "cases": cases}
 
 
@@ -1500,6 +1542,92 @@ def b_comps(tier, rnd):
     return {"rule": "compositions of 0, 1, 2, 4 tracks", "cases": out}
 
 
+@battery("track_blank")
+def b_track_blank(tier, rnd):
+    from mingus.containers.track import Track
+    return {"rule": "Track.__init__ on blank instances, instrument None or omitted",
+            "cases": [(Track.__new__(Track), None), (Track.__new__(Track),), (Track.__new__(Track), None)]}
+
+
+@battery("comp_blank")
+def b_comp_blank(tier, rnd):
+    from mingus.containers.composition import Composition
+    return {"rule": "Composition.__init__ on three blank instances",
+            "cases": [(Composition.__new__(Composition),) for _ in range(3)]}
+
+
+def _index_cases(objs, n_of, extra=()):
+    cases = []
+    for o in objs:
+        n = n_of(o)
+        for i in range(-n - 1, n + 1):
+            cases.append((o, i) + tuple(extra))
+    return cases
+
+
+@battery("track_index")
+def b_track_index(tier, rnd):
+    return {"rule": "8 tracks of 0..3 bars x every index incl. one out of range on each side",
+            "cases": _index_cases(_lift_tracks(rnd), lambda t: len(t.bars))}
+
+
+@battery("track_setitem")
+def b_track_setitem(tier, rnd):
+    import copy
+    from mingus.containers.bar import Bar
+    cases = []
+    for t in _lift_tracks(rnd):
+        for i in range(-len(t.bars) - 1, len(t.bars) + 1):
+            cases.append((copy.deepcopy(t), i, Bar("G", (3, 4))))
+            cases.append((copy.deepcopy(t), i, 7))
+    return {"rule": "8 tracks of 0..3 bars x every index incl. one out of range on each side x {a Bar, the int 7}",
+            "cases": cases}
+
+
+def _comps_with_tracks():
+    from mingus.containers.composition import Composition
+    from mingus.containers.track import Track
+    out = []
+    for n in (0, 1, 2, 3, 4):
+        c = Composition()
+        for _ in range(n):
+            c.add_track(Track())
+        out.append(c)
+    return out
+
+
+@battery("comp_index")
+def b_comp_index(tier, rnd):
+    return {"rule": "compositions of 0..4 tracks x every index incl. one out of range on each side",
+            "cases": _index_cases(_comps_with_tracks(), lambda c: len(c.tracks))}
+
+
+@battery("comp_setitem")
+def b_comp_setitem(tier, rnd):
+    from mingus.containers.track import Track
+    cases = []
+    for c in _comps_with_tracks():
+        for i in range(-len(c.tracks) - 1, len(c.tracks) + 1):
+            import copy
+            cases.append((copy.deepcopy(c), i, Track()))
+    return {"rule": "compositions of 0..4 tracks x every index incl. one out of range on each side x a new Track",
+            "cases": cases}
+
+
+@battery("nc_index")
+def b_nc_index(tier, rnd):
+    return {"rule": "42 containers as in 'nc_flag' x every index incl. one out of range on each side",
+            "cases": _index_cases(_nc_pool(rnd), lambda nc: len(nc.notes))}
+
+
+@battery("nc_blank")
+def b_nc_blank(tier, rnd):
+    from mingus.containers.note_container import NoteContainer
+    N = NoteContainer
+    return {"rule": "NoteContainer.__init__ on blank instances: notes None, omitted, or one bare name (<= 2 accidentals)",
+            "cases": [(N.__new__(N), None), (N.__new__(N),)] + [(N.__new__(N), n) for n in all_names(2)]}
+
+
 @battery("comp_strings")
 def b_comp_strings(tier, rnd):
     from mingus.containers.composition import Composition
@@ -1542,6 +1670,25 @@ def b_bar_at(tier, rnd):
         for at in (0.0, 0.25, 0.5, 0.75, 1.0, 0.3):
             cases.append((copy.deepcopy(b), NoteContainer(["B", "D"]), at))
     return {"rule": "bars without rests from the 'bar_lift' family x 6 beats (hit and miss) x one container", "cases": cases}
+
+
+@battery("bar_init")
+def b_bar_init(tier, rnd):
+    from mingus.containers.bar import Bar
+    from contracts.core_keys import KEYS30
+    meters = [(4, 4), (3, 4), (6, 8), (0, 0), (12, 8), (5, 16), (1, 1), (7, 3), (4, 0), (0, 4), (4, 5), (2, 64), (9, 128)]
+    keys = list(KEYS30) + ["H", "c##", "C-4", "Cm", "cb", "X#", "?"]
+    return {"rule": "Bar.__init__ on a blank instance x (30 keys + 7 unknown keys) x 13 meters (valid, free, invalid units)",
+            "cases": [(Bar.__new__(Bar), k, m) for k in keys for m in meters]}
+
+
+@battery("bar_getitem")
+def b_bar_getitem(tier, rnd):
+    cases = []
+    for b in _lift_bars(rnd):
+        for i in range(-len(b.bar) - 1, len(b.bar) + 1):
+            cases.append((b, i))
+    return {"rule": "the 'bar_lift' family x every index incl. one out of range on each side", "cases": cases}
 
 
 @battery("bar_setitem")
